@@ -216,3 +216,21 @@ LEVEL_TEXT += _ADDR5B
 _ADDR5D = ' Borrowed: R15.7 (generated aliases of nested classes are module-qualified, so each nested class is read under its own key rules).'
 EXPLANATION += _ADDR5D
 LEVEL_TEXT += _ADDR5D
+
+
+_run_before_r6b = run
+
+
+def run(repo, rep, tier):  # noqa: F811 -- round-6 remedies (core/round6.py)
+    _run_before_r6b(repo, rep, tier)
+    if getattr(rep, "borrowed", False):
+        return
+    from ..core import round6 as _r6b
+    _r6b.plain_config_copied_whole(repo, rep, "R09.10")
+    _r6b.shared_options_read_through_chain(repo, rep, "R08.9")
+    _r6b.own_config_only_sites(repo, rep, "R06.16")
+
+
+_ADDR6C = ' R09.10: a plain Config is lifted with all its attributes (no filter). Borrowed: R08.9, R06.16.'
+EXPLANATION += _ADDR6C
+LEVEL_TEXT += _ADDR6C
